@@ -19,14 +19,17 @@ Positions == {"from", "join", "in", "cmp", "select-item", "cte", "insert-select"
               \* the SELECT source of an upsert, a scalar subquery among INSERT values
               "insert-select-upsert", "insert-value",
               \* a scalar subquery as an ORDER BY / GROUP BY item (bare or as a function argument), as the value of SET and of DO UPDATE SET
-              "orderby-item", "groupby-item", "orderby-function-arg", "set-value", "do-update-value"}
+              "orderby-item", "groupby-item", "orderby-function-arg", "set-value", "do-update-value",
+              \* the right operand of arithmetic (a query on the LEFT of * + - is a set operation by the builder's operator overloads)
+              "arith-right", "arith-sub-right", "arith-div-right"}
 Embed == [p \in Positions |->
             CASE p \in {"from", "join", "from-joined"} -> [paren |-> TRUE, alias |-> TRUE]
               [] p \in {"select-item", "select-item-joined"} -> [paren |-> TRUE, alias |-> TRUE]
               [] p \in {"in", "cmp", "cte", "create-as", "in-joined", "cte-joined", "in-bool-group", "cmp-bool-group", "in-not", "cmp-not", "join-on-operand", "having-operand",
                          "function-arg", "case-branch"} -> [paren |-> TRUE, alias |-> FALSE]
               [] p \in {"insert-select", "insert-select-upsert"} -> [paren |-> FALSE, alias |-> FALSE]
-              [] p \in {"insert-value", "orderby-item", "groupby-item", "orderby-function-arg", "set-value", "do-update-value"} -> [paren |-> TRUE, alias |-> FALSE]
+              [] p \in {"insert-value", "orderby-item", "groupby-item", "orderby-function-arg", "set-value", "do-update-value",
+                         "arith-right", "arith-sub-right", "arith-div-right"} -> [paren |-> TRUE, alias |-> FALSE]
               [] OTHER -> [paren |-> TRUE, alias |-> FALSE]]     \* set operands: bracketed unless the dialect does not wrap
 
 \* numbered placeholders are compared by order only
